@@ -133,7 +133,7 @@ func main() {
 		}
 	}
 
-	const shard = 60
+	const shard = 45
 	var terms []string
 	start := 0
 	flush := func(end int) {
